@@ -866,9 +866,11 @@ impl<E: Effect> Executor<E> {
     }
 
     pub fn mark_active(&mut self, id: ProcessId) {
-        let was_spawning = self.spawning.remove(&id);
-        let was_selecting = self.selecting.remove(&id);
-        if was_spawning || was_selecting {
+        // Only a process parked in `selecting` may be woken here. One parked in `spawning` is
+        // waiting for `notify_spawn`, which supplies the new pid and advances its counter; waking
+        // it early would execute the `Spawn` instruction a second time on a stack that no longer
+        // holds its operands.
+        if self.selecting.remove(&id) {
             self.queue.push_back(id);
         }
     }
